@@ -372,6 +372,11 @@ class QasmOutput:
             return protocols.qasm(op, args=self.args, default=None) is not None
 
         def fallback(op):
+            if isinstance(op, ops.ClassicallyControlledOperation):
+                sub_op = fallback(op.without_classical_controls())
+                if sub_op is NotImplemented:
+                    return NotImplemented
+                return sub_op.with_classical_controls(*op.classical_controls)
             if len(op.qubits) not in [1, 2]:
                 return NotImplemented
 
